@@ -205,6 +205,17 @@ theorem write_describes (C : Gotree.Newick.Codec) (t : T) (h : textWF C t = true
     textProblems t (Gotree.Newick.writeStr C t) = [] :=
   textProblems_write C t h
 
+/-- the region `write_describes` excludes is not empty (open finding F85, class
+    NewickUnquotedMetacharName): the writer prints a name containing a metacharacter unquoted, and
+    the text `(x,y:1,b:1);` of the 2-tip tree below, re-read, has three tips -/
+def witnessMetaName : T :=
+  T.node ⟨"", []⟩ 0 [(⟨1, NIL, NIL, [], 0⟩, T.leaf "x,y"), (⟨1, NIL, NIL, [], 1⟩, T.leaf "b")]
+
+theorem unquoted_metachar_name_fails :
+    textWF Gotree.Newick.goCodec witnessMetaName = false ∧ hasMetaName witnessMetaName = true ∧
+    textProblems witnessMetaName (Gotree.Newick.writeStr Gotree.Newick.goCodec witnessMetaName) ≠ [] := by
+  decide +kernel
+
 /-! ### histories: the invariant is closed under every composed operation model -/
 
 /-- the invariant of edit histories: unique tip names, and no single-child inner node as long as
@@ -466,6 +477,26 @@ theorem op_ok (ns : Bool) (op : EditOp) (t t' : T) (h : Inv ns t) (hp : opPre ns
       simp only [Gotree.C05.Res.ok.injEq] at ho
       subst ho
       exact ⟨hasDupS_false_nodup _ (by simpa using hd), fun hpr => by rw [setNames_noSingle]; exact hns hpr⟩
+  | clearLengths i x =>
+    simp only [applyOp, Gotree.C05.Res.ok.injEq] at ho; subst ho
+    obtain ⟨h1, h2⟩ := mapData_inv id (fun tip e => if selEdge i x tip then { e with len := NIL } else e) (fun _ => rfl) t
+    exact ⟨by rw [clearLengths, h1]; exact hu, fun hpr => by rw [clearLengths, h2]; exact hns hpr⟩
+  | clearSupports =>
+    simp only [applyOp, Gotree.C05.Res.ok.injEq] at ho; subst ho
+    obtain ⟨h1, h2⟩ := mapData_inv id (fun _ e => { e with sup := NIL, pval := NIL }) (fun _ => rfl) t
+    exact ⟨by rw [clearSupports, h1]; exact hu, fun hpr => by rw [clearSupports, h2]; exact hns hpr⟩
+  | clearComments =>
+    simp only [applyOp, Gotree.C05.Res.ok.injEq] at ho; subst ho
+    obtain ⟨h1, h2⟩ := mapData_inv (fun d => { d with comments := [] }) (fun _ e => { e with comments := [] }) (fun _ => rfl) t
+    exact ⟨by rw [clearComments, h1]; exact hu, fun hpr => by rw [clearComments, h2]; exact hns hpr⟩
+  | scaleLengths q i x =>
+    simp only [applyOp, Gotree.C05.Res.ok.injEq] at ho; subst ho
+    obtain ⟨h1, h2⟩ := mapData_inv id (fun tip e => if e.len != NIL && selEdge i x tip then { e with len := e.len * q } else e) (fun _ => rfl) t
+    exact ⟨by rw [scaleLengths, h1]; exact hu, fun hpr => by rw [scaleLengths, h2]; exact hns hpr⟩
+  | roundLengths0 i x =>
+    simp only [applyOp, Gotree.C05.Res.ok.injEq] at ho; subst ho
+    obtain ⟨h1, h2⟩ := mapData_inv id (fun tip e => if e.len != NIL && selEdge i x tip then { e with len := roundRat e.len } else e) (fun _ => rfl) t
+    exact ⟨by rw [roundLengths0, h1]; exact hu, fun hpr => by rw [roundLengths0, h2]; exact hns hpr⟩
   | renameAuto internals tips length =>
     simp only [applyOp, renameAuto] at ho
     split at ho
@@ -584,7 +615,8 @@ example :
               .graftTree "a" exSecond, .graftEdge "new" 3, .insertIdentical [["b", "b2", "b3"]],
               .collapseDepth 1 2 false false, .collapseSup (1/2) false, .subTree [1], .rename [("a", "A")],
               .shuffle [0, 1, 0, 3, 2, 1, 0, 4], .quotes true false true, .renameAuto true true 4, .relabel ["r"],
-              .reinit, .clone, .removeSingle] : List EditOp),
+              .reinit, .clone, .removeSingle, .clearLengths true false, .clearSupports, .clearComments,
+              .scaleLengths (3/4) true true, .roundLengths0 true true] : List EditOp),
       opPre true op exHist = true ∧ (match applyOp op exHist with | .ok t => InvB (promised true op exHist) t | _ => false) = true) := by
   decide +kernel
 
